@@ -60,8 +60,8 @@ EXCEPT_SPECS = [
     "", "KeyError", "ZeroDivisionError", "(KeyError, IndexError)", "Exception", "Exception as ex",
     "NameError", "LookupError as ex", "undefined_exc", "TypeError", "AttributeError as ex",
 ]
-APPLY_FNS = ["up", "wrap", "ident", "rev", "up", "wrap", "ident", "rev", "xhtml_escape", "up", "wrap", "ident", "rev", "xhtml_escape", "url_escape", "boom", "fns['up']", "undefined_fn", "linkify"]
-AUTOESCAPES = ["xhtml_escape", "None", "url_escape", "myesc", "None", "xhtml_escape", "None", "url_escape", "myesc", "fns['up']", "undefined_fn", "escape"]
+APPLY_FNS = ["up", "wrap", "ident", "rev", "up", "wrap", "ident", "rev", "xhtml_escape", "up", "wrap", "ident", "rev", "xhtml_escape", "url_escape", "boom", "undefined_fn", "linkify"]
+AUTOESCAPES = ["xhtml_escape", "None", "url_escape", "myesc", "None", "xhtml_escape", "None", "url_escape", "myesc", "up", "undefined_fn", "escape"]
 WS_MODES = ["all", "single", "oneline"]
 BLOCK_NAMES = ["b0", "b1", "b2"]
 
@@ -781,3 +781,91 @@ def mutate(src, r, kind, selector, variant):
         return {"src": new, "expect": "python_level", "line": line_of(src, c[0]), "label": "either_python_level_error",
                 "kinds": None}
     raise AssertionError(kind)
+
+
+# --------------------------------------------------------------------- directory-structured sets
+def _cfg(profile, pools, includes, blocks, budget):
+    return {
+        "profile": profile, "max_depth": 2, "budget": [budget],
+        "value_exprs": pools.get("value_exprs", VALUE_EXPRS), "conds": pools.get("conds", CONDS),
+        "for_heads": pools.get("for_heads", FOR_HEADS), "set_stmts": pools.get("set_stmts", SET_STMTS),
+        "apply_fns": pools.get("apply_fns", APPLY_FNS), "autoescapes": pools.get("autoescapes", AUTOESCAPES),
+        "except_specs": pools.get("except_specs", EXCEPT_SPECS), "includes": includes, "blocks": blocks,
+        "state": {"autoescape_used": False}, "allow_autoescape": True,
+    }
+
+
+@st.composite
+def dirs_case_strategy(draw, profile="c19", pools=None):
+    """Template sets spread over 2-3 directories ('a', 'b', root) in which the SAME relative name
+    ('part.EXT', 'base.EXT', '../x/part.EXT') written in different directories means different files,
+    plus a history of entry points loaded through ONE loader (so its cache is warm).
+
+    Every file starts with a marker naming it, so that a mixed-up file is visible in the output.
+    Result: the usual case dict + "history": [entry names]; files[0] is the first entry."""
+    pools = pools or {}
+    dirs = draw(st.sampled_from([["a", "b"], ["a", ""], ["", "b"], ["a", "b", ""], ["b", "a", ""], ["a", "a/c"], ["a/c", "a", ""]]))
+    ext = ".txt" if profile == "c20" else draw(st.sampled_from([".html", ".txt", ".js"]))
+    has_base = draw(st.booleans())
+    cross = draw(st.booleans())
+    join = lambda d, n: (d + "/" + n) if d else n
+    files = []
+    pages, parts = [], []
+    for di, d in enumerate(dirs):
+        part = join(d, "part" + ext)
+        page = join(d, "page" + ext)
+        parts.append(part)
+        pages.append(page)
+        # part: a leaf
+        cfg = _cfg(profile, pools, [], set(), 5)
+        body = [["text", "P%s " % part.replace("/", " ").replace(".", " ")]] + draw(body_strategy(cfg, 0, False, cfg["budget"]))
+        files.append({"name": part, "extends": None, "body": fix_loop_else(body)})
+        if has_base:
+            base = join(d, "base" + ext)
+            cfg = _cfg(profile, pools, [], set(BLOCK_NAMES), 6)
+            body = [["text", "B%s " % base.replace("/", " ").replace(".", " ")]] + draw(body_strategy(cfg, 0, False, cfg["budget"]))
+            if not any(nd[0] == "block" for nd in walk_nodes(body)):
+                body.append(["block", "b0", [["text", "dflt"]]])
+            files.append({"name": base, "extends": None, "body": fix_loop_else(body)})
+        # page: includes its sibling 'part.EXT' by the bare relative name, maybe another directory's part
+        incs = ["part" + ext]
+        if cross:
+            other = dirs[(di + 1) % len(dirs)]
+            incs.append(relname(page, join(other, "part" + ext)))
+        cfg = _cfg(profile, pools, incs, set(BLOCK_NAMES) if has_base else set(), 7)
+        inner = draw(body_strategy(cfg, 0, False, cfg["budget"]))
+        q = draw(st.integers(0, 2))
+        forced = [["include", i, q] for i in incs if not _mentions_include(inner, i)]
+        inner = [["text", "G%s " % page.replace("/", " ").replace(".", " ")]] + inner + forced
+        if has_base:
+            used = {nd[1] for nd in walk_nodes(inner) if nd[0] == "block"}
+            free = [b for b in BLOCK_NAMES if b not in used]
+            if free and draw(st.integers(0, 3)) > 0:
+                # the page's own content goes into a block of its directory's base
+                inner = [["block", free[0], inner]]
+            body = inner
+            extends = ["base" + ext, draw(st.integers(0, 2)), draw(st.integers(0, len(body)))]
+        else:
+            body = inner
+            extends = None
+        files.append({"name": page, "extends": extends, "body": fix_loop_else(body)})
+    entries = list(pages) + parts
+    if not has_base:
+        # an index at the root that includes every directory's page by path
+        index = "index" + ext
+        q = draw(st.integers(0, 2))
+        body = [["text", "I "]] + [["include", p, q] for p in draw(st.permutations(pages))]
+        files.append({"name": index, "extends": None, "body": body})
+        entries.append(index)
+    first = draw(st.permutations(pages))
+    more = draw(st.lists(st.sampled_from(entries), min_size=0, max_size=3))
+    history = list(first) + more if draw(st.booleans()) else more[:1] + list(first) + more[1:]
+    # files[0] = first entry (the single-entry code paths use it)
+    files.sort(key=lambda fd: fd["name"] != history[0])
+    loader = {
+        "autoescape": draw(st.sampled_from(pools.get(
+            "loader_autoescapes", ["default", "default", "xhtml_escape", None, "myesc", "url_escape"]))),
+        "whitespace": draw(st.sampled_from([None, None, "all", "single", "oneline"])) if profile == "c19" else None,
+    }
+    return {"files": files, "loader": loader, "profile": profile, "tagstyle": draw(st.integers(0, 2)),
+            "mutation": None, "history": history}
